@@ -1,6 +1,6 @@
 (* C14 — with an asynchronous credential store, pipelined frames wait for the verdict. *)
 From Coq Require Import ZArith List Bool.
-From HP Require Import Bytes Sha1 Wire Broker BrokerSpec BrokerInv BrokerStep BrokerTrace BrokerLocal BrokerTimer BrokerProps BrokerProps2 BrokerBlame BrokerParked.
+From HP Require Import Bytes Sha1 Wire Broker BrokerSpec BrokerInv BrokerStep BrokerTrace BrokerLocal BrokerTimer BrokerProps BrokerProps2 BrokerBlame BrokerParked BrokerWellBehaved BrokerWellBehavedAsync.
 Import ListNotations.
 
 Section C14.
@@ -69,6 +69,28 @@ Theorem C14_parked_until_verdict : forall h1 h2 q i dg rest l,
 Proof. exact (parked_until_verdict bname store async_store). Qed.
 End C14.
 
+Section C14b.
+Variable store : ident -> lookup.
+(* "they take effect exactly once and in order when a successful verdict arrives": when the verdict for the oldest pending
+   OP_AUTH (i, digest) is a row r with digest = SHA1(nonce ++ secret of r), the connection is authenticated as (i, r) and
+   process_pending runs over the parked buffer; if that holds well-formed requests permitted under r (and an incomplete
+   tail), every one of them is accepted, in order, the connection stays healthy and only the tail stays buffered *)
+Theorem C14_verdict_accepts_parked : forall q s i r post rest more, Good store true s -> healthy s q ->
+  pending (conns s q) = (i, sha1 (nonce (conns s q) ++ r_secret r)) :: more ->
+  buf (conns s q) = concat (map enc post) ++ rest -> next ParamsOK.limitP rest = NeedMore -> Forall wf post -> wb_plain i r post ->
+  let s' := do_lookup_done store true q (RLook (LRow r)) s in
+  healthy s' q /\ agrees s' q (Some (i, r)) /\ buf (conns s' q) = rest /\ timer (conns s' q) = timer (conns s q).
+Proof. exact (lookup_done_wb store). Qed.
+(* and the read that carried the OP_AUTH only parked it: lookup queued, everything behind it still buffered *)
+Theorem C14_auth_read_parks : forall q s chunk body i dg tailb, healthy s q -> can_read (conns s q) = true ->
+  buf (conns s q) ++ chunk = hdr 2 body ++ tailb -> wf (2%Z, body) -> readauth body = Some (i, dg) ->
+  let s' := do_data store true q chunk s in
+  healthy s' q /\ buf (conns s' q) = tailb /\ pending (conns s' q) = pending (conns s q) ++ [(i, dg)] /\
+  timer (conns s' q) = timer (conns s q) /\ nonce (conns s' q) = nonce (conns s q) /\
+  (ak (conns s' q), pubchans (conns s' q), subchans (conns s' q)) = (ak (conns s q), pubchans (conns s q), subchans (conns s q)).
+Proof. exact (data_auth_parks store). Qed.
+End C14b.
+
 Print Assumptions C14_auth_parks.
 Print Assumptions C14_paused_ignores_data.
 Print Assumptions C14_parked_untouched.
@@ -76,3 +98,5 @@ Print Assumptions C14_completion.
 Print Assumptions C14_failed_lookup.
 Print Assumptions C14_good_always.
 Print Assumptions C14_parked_until_verdict.
+Print Assumptions C14_verdict_accepts_parked.
+Print Assumptions C14_auth_read_parks.
